@@ -153,8 +153,18 @@ func MatchFunctionsByTopology(oldResults, newResults []FingerprintResult, thresh
 		}
 
 		// Use sort.SliceStable for deterministic ordering.
+		// Among equally similar candidates a body-identical one (same fingerprint: a pure rename)
+		// goes first, so that a renamed function is not paired with a structurally identical
+		// near copy (e.g. one constant changed) whose name merely sorts earlier.
+		sameBody := func(c candidate) bool {
+			o, n := unmatchedOld[c.oldIdx].Fingerprint, unmatchedNew[c.newIdx].Fingerprint
+			return o != "" && o == n
+		}
 		sort.SliceStable(candidates, func(i, j int) bool {
-			return candidates[i].sim > candidates[j].sim
+			if candidates[i].sim != candidates[j].sim {
+				return candidates[i].sim > candidates[j].sim
+			}
+			return sameBody(candidates[i]) && !sameBody(candidates[j])
 		})
 
 		usedOld := make(map[int]bool)
